@@ -157,7 +157,9 @@ def _fmt12(rnd, mapping):
 
 def cmap_foreign(rnd, base_mapping, n_glyphs):
     """-> (cmap bytes, description) or (None, why)"""
-    mapping = {c: g for c, g in base_mapping.items() if 0 < g < n_glyphs and c < 0xF000}
+    if n_glyphs < 3:
+        return None, "fewer than 3 glyphs"
+    mapping = {c: g for c, g in base_mapping.items() if 0 < g < n_glyphs and c < 0xE000}
     if len(mapping) < 6:
         for k in range(26):
             mapping.setdefault(0x41 + k + (k // 5), 1 + (k * 7) % (n_glyphs - 1))
